@@ -77,8 +77,11 @@ func (t *Text) GenerateOutput(textOnly bool) string {
 		clonedRoot = parentClone
 	}
 
-	// The body element should not be used in the output.
-	if dom.TagName(clonedRoot) == "body" {
+	// The body element should not be used in the output. Neither should a cell or
+	// caption of a (layout) table: without its table the tag is dropped when the
+	// output is parsed again, and the words of neighbouring cells are fused.
+	switch dom.TagName(clonedRoot) {
+	case "body", "td", "th", "caption":
 		div := dom.CreateElement("div")
 		dom.SetInnerHTML(div, dom.InnerHTML(clonedRoot))
 		clonedRoot = div
